@@ -464,6 +464,7 @@ type cdcH struct {
 	bad     []map[string]any // payload-level mismatches found by the harness itself
 	notes   []string
 	nevents atomic.Int64
+	stuck   string
 }
 
 // setLog makes the generator's entries the committed log and indexes the row changes of every commit.
@@ -702,7 +703,19 @@ func (h *cdcH) startNode(n *cdcNode) error {
 
 func (h *cdcH) stopNode(n *cdcNode) {
 	if n.svc != nil {
-		n.svc.Stop()
+		// Service.Stop waits for writeToBatcher, which can sit in batcher.WriteOne for ever once mainLoop has
+		// left (batcher channels full, nobody reads batcher.C): only stop a service whose hand-off channel
+		// is drained, and do not wait for ever.
+		c := h.cnt[n.id]
+		cdcWait(30*time.Second, func() bool { return c.commit.Load()-c.dropped.Load() == c.inTotal.Load() })
+		done := make(chan struct{})
+		svc := n.svc
+		go func() { svc.Stop(); close(done) }()
+		select {
+		case <-done:
+		case <-time.After(30 * time.Second):
+			h.stuck = fmt.Sprintf("Service.Stop of %s did not return", n.id)
+		}
 		n.svc = nil
 	}
 	if n.d != nil {
@@ -821,6 +834,9 @@ func (h *cdcH) ingestedForSnapshot(id string) error { return nil }
 func (h *cdcH) restart(id string) error {
 	n := h.nodes[id]
 	h.stopNode(n)
+	if h.stuck != "" {
+		return errors.New(h.stuck)
+	}
 	emit("", "c.restart", "node", id, "snap", n.snap)
 	h.cnt[id].resetPipeline()
 	h.cnt[id].lead.Store(false)
